@@ -23,7 +23,7 @@ class C04(Prop):
             "A C loop adds single-number trees (dense sweep). libFuzzer fz_parse checks the fixed point on parser-made trees. "
             "non-trivial = tree with a non-integer double, an escape-needing byte or depth >= 2; distinct by tree hash")
     ASSUMPTIONS = ["only the C locale exists in this sandbox (decimal point is always '.')"]
-    REQUIRED_CLASSES = ["non_integer_double", "escape_needed", "depth>=2", "growth_exercised", "from_parser", "top_of_range_double",
+    REQUIRED_CLASSES = ["long_string>=1000", "non_integer_double", "escape_needed", "depth>=2", "growth_exercised", "from_parser", "top_of_range_double",
                         "invalid_utf8", "wide_shallow>limit", "print_history_reused_constant_keys"]
 
     def budget(self, tier):
@@ -35,9 +35,9 @@ class C04(Prop):
     def strategy(self, tier):
         numbers = st.one_of(gens.finite_doubles(), gens.finite_doubles(), gens.finite_doubles(), gens.top_doubles())
         leaves_b = gens.scalars_built(strings=st.one_of(gens.byte_strings(16), gens.escapey_strings(), gens.invalid_utf8_strings()), numbers=numbers)
-        leaves_u = gens.scalars_built(strings=st.one_of(gens.utf8_strings(10), gens.escapey_strings()), numbers=numbers)
+        leaves_u = gens.scalars_built(strings=gens.with_long(st.one_of(gens.utf8_strings(10), gens.escapey_strings())), numbers=numbers)
         keys_b = st.one_of(gens.byte_strings(6), gens.ascii_keys(3), gens.escapey_strings(4), gens.invalid_utf8_strings(4))
-        keys_u = st.one_of(gens.utf8_strings(5), gens.ascii_keys(3), gens.escapey_strings(4))
+        keys_u = gens.with_long(st.one_of(gens.utf8_strings(5), gens.ascii_keys(3), gens.escapey_strings(4)), 120)
         tree = st.one_of(
             gens.shaped_documents(leaves_b, keys_b, max_leaves=16).map(lambda d: {"kind": "tree", "jv": d, "utf8": False}),
             gens.shaped_documents(leaves_u, keys_u, max_leaves=16).map(lambda d: {"kind": "tree", "jv": d, "utf8": True}),
@@ -103,6 +103,8 @@ class C04(Prop):
             jv = ["D", jv[1], lib.nesting_limit + jv[2][1], jv[3]]
         classes = set()
         for n in model.walk_jv(jv):
+            if (n[0] == "S" and len(n[1]) >= 1000) or (n[0] == "O" and any(len(k) >= 1000 for k, _ in n[1])):
+                classes.add("long_string>=1000")
             if n[0] == "N":
                 d = n[1]
                 if d != math.floor(d):
